@@ -41,6 +41,12 @@ Patterns == { PAnd(<<I("p"), r, I("q")>>) : r \in Repeated }
        \cup { PAnd(<<I("p"), WithTimes(I("a"), b[1], b[2]), PNot(WithTimes(I("b"), b[1], b[2])), I("q")>>) : b \in { <<2, 3>>, <<1, 2>> } }
        \cup { PAnd(<<I("p"), PNot(WithTimes(I("b"), b[1], b[2])), WithTimes(I("a"), b[1], b[2]), I("q")>>) : b \in { <<2, 3>>, <<1, 2>> } }
        \cup Unrolled
+       \* a repeated group that is a direct member of a group of the same kind (the bounds belong to the inner group:
+       \* the two groups are not one flat group)
+       \cup { PAnd(<<I("p"), POr(<<I("c"), WithTimes(POr(<<I("a"), I("b")>>), b[1], b[2])>>), I("q")>>)
+               : b \in { <<0, 0>>, <<0, 1>>, <<1, 1>>, <<0, 2>>, <<2, 2>> } }
+       \cup { PAnd(<<I("p"), PAnd(<<I("c"), WithTimes(PAnd(<<I("a"), I("b")>>), b[1], b[2])>>), I("q")>>)
+               : b \in { <<0, 0>>, <<0, 1>>, <<1, 1>>, <<0, 2>>, <<2, 2>> } }
        \* optional items and groups whose mnemonics are real words (text that occurs nowhere else in the stream --
        \* single letters also occur inside addresses)
        \cup { PAnd(<<I("p"), WithTimes(g, b[1], b[2]), I("q")>>)
